@@ -75,6 +75,16 @@ class OptionsEval:
                 for c in self.C.repo.mro(self.C.draw.cls):
                     if e.attr in c.class_attrs:
                         return self.consts_of(c.class_attrs[e.attr], depth + 1)
+            # a constant of another repo class (`DrawOptions.OWN_OPTIONS`)
+            ctx = (getattr(e, "_src", None) or getattr(e, "_orig", None) or (M.V, e))[0]
+            ci = ctx.module.classes.get(e.value.id)
+            if ci is None:
+                fq = ctx.module.imports.get(e.value.id)
+                ci = self.C.repo.classes.get(fq) if fq else None
+            if ci is not None:
+                for c in self.C.repo.mro(ci):
+                    if e.attr in c.class_attrs:
+                        return self.consts_of(c.class_attrs[e.attr], depth + 1)
         return None
 
     # ------------------------------------------------------------------ evaluation
@@ -142,6 +152,11 @@ class OptionsEval:
         if isinstance(e, ast.IfExp):
             self.odd.append(f"`{norm(e, 60)}`: options chosen by a conditional expression are not read")
             return
+        if isinstance(e, ast.Attribute):
+            r = M.resolve(e)
+            if not isinstance(r, ast.Attribute):
+                self.eval(r, ctx, depth + 1)
+                return
         self.odd.append(f"`{norm(e, 60)}` (part of the backend options) is not read")
 
     def _filter_keys(self, e: ast.DictComp):
